@@ -244,7 +244,7 @@ pub fn case(tape: &[u32]) -> CaseOutcome {
     let which = a.choose(4);
     let sources = pick_sources(&mut a, 1);
     let (prog, globals) = if which == 0 {
-        let (p, _) = super::c04::scenario(&mut t, false);
+        let (p, _) = super::c04::scenario(&mut t, false, 5);
         (p, BTreeMap::new())
     } else {
         let mut cfg = if which == 1 { GenCfg::full() } else { GenCfg::fragment() };
